@@ -129,7 +129,7 @@ def success(p):
 def run(chk, tier):
     P = Prog("default")
     chk.configs.add("default")
-    for r in (r_mustread, r_verify_sets, r_ambiguous_pick, r_setter_boxes, r_setter_fields, r_resolve_year, r_absint):
+    for r in (r_mustread, r_verify_sets, r_ambiguous_pick, r_who_writes, r_setter_boxes, r_setter_fields, r_resolve_year, r_absint):
         chk.guarded(r, P, tier)
     chk.assume("that resolution succeeds exactly on the documented sufficient combinations, and the error classification (not enough / impossible / out of range), are not decided")
     return {
@@ -239,6 +239,44 @@ def r_ambiguous_pick(chk, P, tier):
             ok = ok and len(checks) == 2
         chk.expect(ok, "Ok(%s candidate %s)" % (variant, x[2] if x[0] == "field" else "?"), "to_datetime_with_timezone returns %s although the offset checks on this path were %s" % (
             pp(x)[-60:], sorted((pp(k)[-24:], v) for k, v in checks.items())), loc=P.loc(fn))
+
+
+def r_who_writes(chk, P, tier):
+    """a supplied field can only be contradicted if something overwrites it: Parsed fields are written only through set_if_consistent (which refuses a
+    different value), reached from the set_* methods; nothing in the crate assigns a Parsed field directly or takes `&mut` of one elsewhere"""
+    from rules import field_writes
+    chk.rule("WRITE.parsed_fields", "no function assigns a field of Parsed directly; `&mut parsed.field` is taken only inside Parsed::set_* (and handed to set_if_consistent)", floor=3)
+    w = field_writes(P, lambda t: t.get("adt") == PA)
+    chk.expect(not w, "direct assignments", "Parsed fields are assigned directly in %s (bypasses the consistency check of the setters)" % sorted({(fn.split("::")[-1], ln) for fn, ln, f in w})[:4],
+               loc=P.loc(w[0][0], w[0][1]) if w else None)
+    ctl = field_writes(P, lambda t: t.get("adt") == "format::strftime::StrftimeItems")
+    chk.expect(bool(ctl), "control: assignments to StrftimeItems fields are seen", "positive control failed: no field assignment found for StrftimeItems (the scan is blind)")
+    # &mut borrows of Parsed fields
+    bad = []
+    n = 0
+    for name, f in P.fns.items():
+        if "mir" not in f:
+            continue
+        m = f["mir"]
+        for b in m["blocks"]:
+            if b.get("cleanup"):
+                continue
+            for st in b["s"]:
+                if st["k"] == "assign" and st["rv"]["k"] == "ref" and st["rv"].get("mut"):
+                    ty = m["locals"][st["rv"]["pl"]["l"]]
+                    for e in st["rv"]["pl"]["p"]:
+                        t = P.ty(ty)
+                        if e == "*":
+                            ty = t.get("inner", ty)
+                        elif isinstance(e, list) and e[0] == "f":
+                            if t.get("adt") == PA:
+                                n += 1
+                                if not name.split("::{")[0].startswith(F + "set_"):
+                                    bad.append((name, st.get("ln")))
+                            ty = e[2]
+                        else:
+                            break
+    chk.expect(not bad and n >= 20, "&mut of fields", "`&mut` of a Parsed field is taken outside the setters: %s (or too few borrow sites found: %d)" % (bad[:3], n), loc=P.loc(bad[0][0], bad[0][1]) if bad else None)
 
 
 def r_setter_boxes(chk, P, tier):
